@@ -196,10 +196,11 @@ func c02c(c *Ctx) {
 		}
 		gotSet := c.PC(fn).At(setW.call.Block())
 		gotUnset := c.PC(fn).At(unsetW.call.Block())
-		c.Check(dnfEquiv(gotSet, setD), s.fn+"/set-iff", c.W.Pos(setW.call.Pos()), "branch-if-set exactly for (== TRUE) or (!= FALSE)", "the 'set' branch is rendered under ["+gotSet.String()+"], expected (Operator == EQ && Value == TRUE) || (Operator == NEQ && Value == FALSE)")
+		dom := map[string][]string{"$1.operatorExpression.Operator": {"==", "!="}, "$1.operatorExpression.ComparisonValue": {"TRUE", "FALSE"}}
+		c.Check(dnfEquivDomain(gotSet, setD, dom), s.fn+"/set-iff", c.W.Pos(setW.call.Pos()), "branch-if-set exactly for (== TRUE) or (!= FALSE)", "the 'set' branch is rendered under ["+gotSet.String()+"], expected (Operator == EQ && Value == TRUE) || (Operator == NEQ && Value == FALSE)")
 		// complement
 		all := orDNF(gotSet, gotUnset)
-		c.Check(dnfEquiv(all, mkDNF([]string{})) && !overlap(gotSet, gotUnset), s.fn+"/unset-otherwise", c.W.Pos(unsetW.call.Pos()), "branch-if-unset in every other case", "the 'unset' branch is rendered under ["+gotUnset.String()+"], which is not the complement of the 'set' condition")
+		c.Check(dnfEquivDomain(all, mkDNF([]string{}), dom) && dnfEquivDomain(andDNF(gotSet, gotUnset), dnf{}, dom), s.fn+"/unset-otherwise", c.W.Pos(unsetW.call.Pos()), "branch-if-unset in every other case", "the 'unset' branch is rendered under ["+gotUnset.String()+"], which is not the complement of the 'set' condition")
 		if strings.Contains(s.set, "%s,") {
 			c.Check(c.term(fn, setW.args[0]) == "$1.operatorExpression.Operand.Literal" && c.term(fn, unsetW.args[0]) == "$1.operatorExpression.Operand.Literal", s.fn+"/operand", c.W.Pos(setW.call.Pos()), "the flag operand is printed", "flag comparison prints a different operand")
 		} else {
